@@ -16,9 +16,20 @@ import Chrono.Props.C04
 import Chrono.Props.C08
 import Chrono.Props.C12
 import Chrono.Props.C17
+import Chrono.Props.C09
+import Chrono.Props.C10
+import Chrono.Props.C11
+import Chrono.Props.C13
+import Chrono.Props.C14
+import Chrono.Props.C20
+import Chrono.Proofs.C15TotalL
+import Chrono.Proofs.C15RenderL
+import Chrono.Proofs.C15SerdeL
+import Chrono.Proofs.C15ZonedL
 
 namespace Chrono.Props.C15
 open Chrono Chrono.M Chrono.Spec Chrono.Proofs Chrono.Extracted
+open Chrono.Spec.Fields Chrono.Proofs.C15Total Chrono.Proofs.C15Zoned
 
 /-- the calendar constructors return normally for every argument, and a returned date satisfies the
 representation invariant -/
@@ -169,5 +180,182 @@ theorem strftime_terminates (l : Bool) (s : List Nat) :
 /-- the documented panics are real: operator subtraction on the minimum duration overflows
 (checked form says `none`), so the operator's `expect` fires -/
 example : Delta.checked_sub Delta.MIN ⟨0, 1⟩ = .ok none := by decide
+
+/-! ## parsers and field resolution -/
+
+/-- **every record the parser can build is in type.**  Whatever the text (any byte string, so any
+Unicode text), whatever the items (every format string's items, the `RFC2822` / `RFC3339` items, error
+items) and from whatever in-type record it starts: a record returned by `parse_internal` (the engine of
+`parse` / `parse_and_remainder`), by the RFC 2822 scanner, by the relaxed and by the strict RFC 3339
+scanner holds only values of the Rust field types (`i32` years and offset, `u32` calendar and clock
+fields, `i64` timestamp).  This is the hypothesis of every C14 resolver theorem. -/
+theorem parser_builds_in_type (items : List Item) (p : Parsed) (s : List Nat) (p' : Parsed) (s' : List Nat)
+    (hp : InType p) :
+    (Parse.parse_internal p s items = .ok (p', s') → InType p') ∧
+    (Parse.parse p s items = .ok p' → InType p') ∧
+    (Parse.parse_rfc2822 p s = .ok (p', s') → InType p') ∧
+    (Parse.parse_rfc3339_relaxed p s = .ok (p', s') → InType p') ∧
+    (Parse.parse_rfc3339 p s = .ok (p', s') → InType p') ∧ InType Parsed.new :=
+  ⟨ParseInType.parse_internal_inType items p s p' s' hp, ParseInType.parse_inType items p s p' hp,
+   ParseInType.rfc2822_inType p s p' s' hp, ParseInType.relaxed_inType p s p' s' hp,
+   ParseInType.strict_inType p s p' s' hp, ParseInType.inType_new⟩
+
+/-- **field resolution.**  On every record of in-type field values, for every `i32` offset argument and
+every fixed-offset zone, each of the six `Parsed::to_*` resolvers returns a value or an error kind, never
+panics (C14 `no_panic`), and a value it returns satisfies the representation invariant of its type
+(`to_naive_time`, `to_fixed_offset` are `ParseResult`-valued in the model: no operation in them can
+panic). -/
+theorem resolvers_total (p : Parsed) (hp : InType p) (off zone : Int)
+    (hoff : -2147483648 ≤ off ∧ off ≤ 2147483647) (hz : OffValid zone) :
+    (∃ r, Parsed.to_naive_date p = .ok r ∧ ∀ d, r = .ok d → DateInv d) ∧
+    (∃ r, (.ok (Parsed.to_naive_time p) : Parsed.RP Time) = .ok r ∧ ∀ t, r = .ok t → TValid t) ∧
+    (∃ r, Parsed.to_naive_datetime_with_offset p off = .ok r ∧ ∀ dt, r = .ok dt → NDTInv dt) ∧
+    (∃ r, (.ok (Parsed.to_fixed_offset p) : Parsed.RP Int) = .ok r ∧ ∀ o, r = .ok o → OffValid o) ∧
+    (∃ r, Parsed.to_datetime p = .ok r ∧ ∀ z, r = .ok z → ZInv z) ∧
+    (∃ r, Parsed.to_datetime_with_timezone p zone = .ok r ∧ ∀ z, r = .ok z → ZInv z) := by
+  have _h := C14.no_panic p hp off zone hoff hz
+  exact ⟨date_total p hp, ⟨_, rfl, fun t ht => (C14.time_sound p t ht).1.1⟩, naive_total p hp off hoff,
+    ⟨_, rfl, fun o ho => (((C14.fixed_offset_sound p).1 o).mp ho).2⟩, C15Total.zoned_total p hp,
+    zoned_tz_total p hp zone hz⟩
+
+/-- **`parse_from_str` / `parse_and_remainder`, all four target types** (`NaiveDate`, `NaiveTime`,
+`NaiveDateTime`, `DateTime<FixedOffset>`), ARBITRARY text × ARBITRARY format string (any two byte
+strings: ASCII, multi-byte, truncated specifiers): the call returns `Ok` or `Err(kind)`, never panics,
+and an `Ok` value is of the target type and satisfies its invariant. -/
+theorem parse_from_str_total (t : ParseFrom.Target) (s fmt : List Nat) :
+    (∃ r, ParseFrom.parse_from_str t s fmt = .ok r ∧ ∀ v, r = .ok v → ValueValid v ∧ v.target = t) ∧
+    (∃ r, ParseFrom.parse_and_remainder t s fmt = .ok r ∧
+      ∀ v rest, r = .ok (v, rest) → ValueValid v ∧ v.target = t) :=
+  ⟨C15Total.parse_from_str_total t s fmt, C15Total.parse_and_remainder_total t s fmt⟩
+
+/-- non-vacuity: U+2212, a digit and a lone lead byte against `%Y%` (a truncated specifier); a timestamp
+beyond the range with an offset; both are errors by value -/
+example :
+    (∃ r, ParseFrom.parse_from_str .naive [0xE2, 0x88, 0x92, 0x31, 0xC3] [37, 89, 37] = .ok r) ∧
+    (∃ r, ParseFrom.parse_from_str .zoned (asciiBytes "9223372036854775807 +00:00") (asciiBytes "%s %z") = .ok r) :=
+  ⟨by obtain ⟨r, h, _⟩ := (parse_from_str_total .naive _ _).1; exact ⟨r, h⟩,
+   by obtain ⟨r, h, _⟩ := (parse_from_str_total .zoned _ _).1; exact ⟨r, h⟩⟩
+
+/-- **the RFC 2822 / RFC 3339 readers**, every byte string: `Ok` or `Err`, never a panic (C11
+`reader_total`; C10 `reader_accepts_iff` + `reader_total_rejects`), and an `Ok` value is well formed. -/
+theorem rfc_readers_total (s : List Nat) :
+    (∃ r, Rfc2822.parse_from_rfc2822 s = .ok r ∧ ∀ z, r = .ok z → ZInv z) ∧
+    (∃ r, Rfc3339.parse_from_rfc3339 s = .ok r ∧ ∀ z, r = .ok z → ZInv z) := by
+  have _h := C11.reader_total s
+  exact ⟨rfc2822_total s, rfc3339_total s⟩
+
+/-- **the `FromStr` impls** of `NaiveDate`, `NaiveTime`, `NaiveDateTime`, `DateTime<FixedOffset>`,
+`DateTime<Utc>`, `FixedOffset`, every byte string: `Ok` or `Err`, never a panic, `Ok` values valid
+(`NaiveTime` / `FixedOffset`: `ParseResult`-valued models; `Weekday` / `Month`: `Option`-valued, C09). -/
+theorem from_str_total (s : List Nat) :
+    (∃ r, TextForms.date_from_str s = .ok r ∧ ∀ d, r = .ok d → DateInv d) ∧
+    (∃ r, (.ok (TextForms.time_from_str s) : Parsed.RP Time) = .ok r ∧ ∀ t, r = .ok t → TValid t) ∧
+    (∃ r, TextForms.naive_from_str s = .ok r ∧ ∀ dt, r = .ok dt → NDTInv dt) ∧
+    (∃ r, TextForms.fixed_from_str s = .ok r ∧ ∀ z, r = .ok z → ZInv z) ∧
+    (∃ r, TextForms.utc_from_str s = .ok r ∧ ∀ z, r = .ok z → ZInv z ∧ z.off = 0) ∧
+    (∃ r, (.ok (TextForms.offset_from_str s) : Parsed.RP Int) = .ok r ∧ ∀ o, r = .ok o → OffValid o) := by
+  obtain ⟨r, hr, hv⟩ := fixed_from_str_total s
+  refine ⟨date_from_str_total s, ⟨_, rfl, fun t ht => time_from_str_valid s t ht⟩, naive_from_str_total s,
+    ⟨r, hr, hv⟩, ?_, ⟨_, rfl, fun o ho => offset_from_str_valid s o ho⟩⟩
+  unfold TextForms.utc_from_str
+  rw [hr]
+  cases r with
+  | error e => exact ⟨_, rfl, fun z hz => by cases hz⟩
+  | ok a =>
+    refine ⟨_, rfl, fun z hz => ?_⟩
+    injection hz with hz; subst hz
+    have := hv a rfl
+    exact ⟨⟨this.1, by unfold OffValid Zoned.with_timezone; dsimp only; omega⟩, rfl⟩
+
+/-! ## RFC 3339 renderers and serde -/
+
+/-- **`to_rfc3339` / `to_rfc3339_opts`** return the text — no panic from the wall-clock view, no
+`expect` on a formatter error — for EVERY well-formed zone-aware value, every `SecondsFormat`, with and
+without `Z`: also when the wall clock lies in the headroom day beyond a range end (`MAX_UTC` at `+01:00`)
+and for wall-clock years outside 0..=9999 (signed five-digit form; C10's `writer_in_grammar` covers
+0..=9999 only).  Rests on C04 `headroom_sound`. -/
+theorem rfc3339_render_total (z : Zoned) (hz : ZInv z) (sf : Format.SecondsFormat) (use_z : Bool) :
+    (∃ t, Rfc3339.to_rfc3339_opts z sf use_z = .ok t) ∧ (∃ t, Rfc3339.to_rfc3339 z = .ok t) :=
+  ⟨C15Render.to_rfc3339_opts_total z hz sf use_z, C15Render.to_rfc3339_opts_total z hz .autoSi false⟩
+
+/-- non-vacuity at the range ends (finding #4's input): `MAX_UTC` viewed at `+01:00` and `MIN_UTC` at
+`−01:00` are well formed and render as `+262143-01-01T00:59:59+01:00` / `-262144-12-31T23:00:00-01:00` -/
+example :
+    ZInv ⟨NaiveDT.MAX, 3600⟩ ∧ ZInv ⟨NaiveDT.MIN, -3600⟩ ∧
+    Rfc3339.to_rfc3339_opts ⟨NaiveDT.MAX, 3600⟩ .secs true = .ok (asciiBytes "+262143-01-01T00:59:59+01:00") ∧
+    Rfc3339.to_rfc3339 ⟨NaiveDT.MIN, -3600⟩ = .ok (asciiBytes "-262144-12-31T23:00:00-01:00") := by
+  decide +kernel
+
+/-- **`Serialize for DateTime<Tz>`** (fixed offset / UTC) hands the serializer a text for every
+well-formed value (the wall clock is read with the one-day headroom; finding #6 repaired); the four
+string visitors (`NaiveDate`, `NaiveTime`, `NaiveDateTime`, `DateTime<FixedOffset>` / `DateTime<Utc>`)
+answer `Ok` / `Err` on every text, never panic, and `Ok` values are valid. -/
+theorem serde_str_total (z : Zoned) (hz : ZInv z) (s : List Nat) :
+    (∃ t, Serde.DateTimeStr.serialize z = .ok (some t)) ∧
+    (∃ r, Serde.NaiveDateStr.visit_str s = .ok r ∧ ∀ d, r = .ok d → DateInv d) ∧
+    (∃ r, Serde.NaiveTimeStr.visit_str s = .ok r ∧ ∀ t, r = .ok t → TValid t) ∧
+    (∃ r, Serde.NaiveDateTimeStr.visit_str s = .ok r ∧ ∀ dt, r = .ok dt → NDTInv dt) ∧
+    (∃ r, Serde.DateTimeStr.deserialize_fixed s = .ok r ∧ ∀ z, r = .ok z → ZInv z) ∧
+    (∃ r, Serde.DateTimeStr.deserialize_utc s = .ok r ∧ ∀ z, r = .ok z → ZInv z ∧ z.off = 0) :=
+  ⟨C15Render.serialize_total z hz, C15Serde.visit_str_total s⟩
+
+/-- **the sixteen serde timestamp modules** (`ts_seconds` … `ts_nanoseconds`, `_option` forms, for
+`DateTime<Utc>` and `NaiveDateTime`): serialization returns normally on every valid value (leap-second
+representations included; the nanosecond modules answer an error by value outside the `i64` window);
+every visitor returns normally on everything a data format can deliver (`visit_i64` of any `i64`,
+`visit_u64` of any `u64`, anything else; `None`, unit, `Some(..)`) and a value it returns is valid
+(C20 `ts_rejects`, `ts_option_reads`). -/
+theorem serde_ts_total (tg : Serde.Target) (u : Serde.TsUnit) (dt : NaiveDT) (h : NDTInv dt)
+    (w : Serde.WInt) (hw : C15Serde.WIntOk w) (wo : Serde.WOpt) (hwo : C15Serde.WOptOk wo) :
+    (∃ r, Serde.serialize tg u dt = .ok r) ∧ (∃ r, Serde.serialize_option tg u (some dt) = .ok r) ∧
+    (∃ r, Serde.serialize_option tg u none = .ok r) ∧
+    (∃ r, Serde.deserialize tg u w = .ok r ∧ ∀ x, r = .ok x → NDTInv x) ∧
+    (∃ r, Serde.deserialize_option tg u wo = .ok r ∧ ∀ x, r = .ok (some x) → NDTInv x) := by
+  obtain ⟨a, b, c⟩ := C15Serde.ts_serialize_total tg u dt h
+  exact ⟨a, b, c, C15Serde.ts_deserialize_total tg u w hw, C15Serde.ts_deserialize_option_total tg u wo hwo⟩
+
+/-- non-vacuity: the last representable instant as a leap second, `u64::MAX` handed to `visit_u64`,
+`i64::MIN` inside `Some` -/
+example : NDTInv ⟨NaiveDT.MAX.date, ⟨86399, 1999999999⟩⟩ ∧ C15Serde.WIntOk (.u64 18446744073709551615) ∧
+    C15Serde.WOptOk (.some (.i64 (-9223372036854775808))) :=
+  ⟨by decide, by show Serde.isU64 _; unfold Serde.isU64; omega, by show Ts.isI64 _; unfold Ts.isI64; omega⟩
+
+/-! ## zone-aware field replacement and checked stepping -/
+
+/-- **`DateTime::with_*`, `with_time`, `checked_add/sub_months`, `checked_add/sub_days`** on every
+well-formed zone-aware value (any offset of less than a day; wall clock possibly in a headroom day) and
+every argument (`u32` / `i32` fields of any size, every valid time of day, every `u32` month count and
+every `u64` day count): the call returns normally — never the `naive_local` panic, no overflow — and a
+value it returns is well formed, keeps the offset and passes the range filter the code applies
+(`MIN_UTC ..= MAX_UTC` for the replacements and `with_time`; representable for the month steppers;
+`≤ MAX_UTC` resp. `≥ MIN_UTC` for the day steppers — `Days(0)` added returns the value itself).
+Collected from C08 `zoned_ops_spec`, C04 `with_time_spec` and `stepping_spec`. -/
+theorem zoned_ops_total (z : Zoned) (hz : ZInv z) (v k : Nat) (y' w : Int) (hw : 0 ≤ w)
+    (t : Time) (ht : TValid t) (n : Int) (hn : 0 ≤ n ∧ n ≤ 18446744073709551615) :
+    (∃ r, Zoned.with_year z y' = .ok r ∧ ZRes InUtcRange z r) ∧
+    (∃ r, Zoned.with_month z v = .ok r ∧ ZRes InUtcRange z r) ∧
+    (∃ r, Zoned.with_month0 z v = .ok r ∧ ZRes InUtcRange z r) ∧
+    (∃ r, Zoned.with_day z v = .ok r ∧ ZRes InUtcRange z r) ∧
+    (∃ r, Zoned.with_day0 z v = .ok r ∧ ZRes InUtcRange z r) ∧
+    (∃ r, Zoned.with_ordinal z v = .ok r ∧ ZRes InUtcRange z r) ∧
+    (∃ r, Zoned.with_ordinal0 z v = .ok r ∧ ZRes InUtcRange z r) ∧
+    (∃ r, Zoned.with_hour z w = .ok r ∧ ZRes InUtcRange z r) ∧
+    (∃ r, Zoned.with_minute z w = .ok r ∧ ZRes InUtcRange z r) ∧
+    (∃ r, Zoned.with_second z w = .ok r ∧ ZRes InUtcRange z r) ∧
+    (∃ r, Zoned.with_nanosecond z w = .ok r ∧ ZRes InUtcRange z r) ∧
+    (∃ r, Zoned.checked_add_months z k = .ok r ∧ ZRes (fun s _ => InRangeSecs s) z r) ∧
+    (∃ r, Zoned.checked_sub_months z k = .ok r ∧ ZRes (fun s _ => InRangeSecs s) z r) ∧
+    (∃ r, Zoned.with_time z t = .ok r ∧ ZRes InUtcRange z r) ∧
+    (∃ r, Zoned.checked_add_days z n = .ok r ∧ ZRes (fun s f => n = 0 ∨ LeMaxUtc s f) z r) ∧
+    (∃ r, Zoned.checked_sub_days z n = .ok r ∧ ZRes (fun s _ => GeMinUtc s) z r) := by
+  obtain ⟨a1, a2, a3, a4, a5, a6, a7, a8, a9, a10, a11, a12, a13⟩ := replace_total z hz v k y' w hw
+  obtain ⟨d1, d2⟩ := days_total z hz n hn
+  exact ⟨a1, a2, a3, a4, a5, a6, a7, a8, a9, a10, a11, a12, a13, with_time_total z hz t ht, d1, d2⟩
+
+/-- non-vacuity (finding #14's input): `MAX_UTC` at `+01:00` with the time of day replaced by 23:00 would
+denote an instant beyond `MAX_UTC`: `None`, not an out-of-range value and not a panic -/
+example : Zoned.with_time ⟨NaiveDT.MAX, 3600⟩ ⟨82800, 0⟩ = .ok none ∧
+    Zoned.checked_add_days ⟨NaiveDT.MAX, 3600⟩ 18446744073709551615 = .ok none ∧
+    Zoned.with_month ⟨NaiveDT.MAX, 3600⟩ 4294967295 = .ok none := by decide +kernel
 
 end Chrono.Props.C15
